@@ -6,6 +6,7 @@
 -/
 import Drive.WorldOps
 import Rsp.Spec.Emit
+import Rsp.Spec.Realm
 namespace Drive
 open Rsp Rsp.Radmsg Rsp.Spec
 
@@ -25,6 +26,12 @@ structure MDel where
   rq : Bytes           -- the client's request
   fwd : Bytes          -- the request as forwarded
 
+/-- what sits in a reply queue: an accepted server reply, or something the proxy produced itself
+    for that request (`replay` = the request was a retransmission) -/
+inductive QEnt
+  | del (d : MDel)
+  | loc (rq : Bytes) (replay : Bool) (tr : List String)
+
 structure Mon where
   cfg : CfgAcc := {}
   clientConf : List String := []       -- client k -> conf name
@@ -36,7 +43,7 @@ structure Mon where
   nasAddr : List Bytes := []
   tx : List (String × Bytes × Nat × Nat) := []      -- (server, packet, time of last transmission, transmissions so far)
   now : Nat := 0
-  queue : List (Nat × Option MDel) := []    -- mirror of the reply queues, oldest first: (client, accepted server reply | local/replayed)
+  queue : List (Nat × QEnt) := []    -- mirror of the reply queues, oldest first
 
 def sections (out : String) : List String := (out.splitOn " | ")
 
@@ -167,6 +174,66 @@ def userNameVerdict (sc : World.SrvConf) (cc : World.CliConf) (d : MDel) (out : 
     else if firstOf 1 out != some u then "bad C02:user-name-not-set-back-to-the-clients-original" else "ok"
   | _, _, _ => "ok"
 
+/-- the first realm block, in configuration order, that matches the identifier according to the
+    documentation; regex realms are answered by the real regexec's recorded answers.
+    none = cannot tell (an answer that would be needed was never recorded); some none = no realm matches -/
+def firstRealm (m : Mon) (trToks : List String) (id : Bytes) : Option (Option World.Realm) :=
+  let tr := parseTranscript trToks
+  let rec go : List (Bytes × World.Realm) → Option (Option World.Realm)
+    | [] => some none
+    | (val, r) :: rest =>
+      let answer := (tr.rx.find? fun (p, s, _) => p == r.pattern && s == id).map fun (_, _, res) => res.isSome
+      match Realm.realmMatches val id answer with
+      | none => none
+      | some true => some (some r)
+      | some false => go rest
+  go (m.cfg.realmVals.zip m.cfg.realms)
+
+/-- C08 on a forwarded request -/
+def routeVerdict (m : Mon) (cc : World.CliConf) (sc : World.SrvConf) (sname : String) (fwd : Bytes) (trToks : List String) : String :=
+  if rwTouches sc.rwOut 1 then "ok" else
+  match firstOf 1 fwd with
+  | none => "bad C08:request-without-user-name-forwarded"
+  | some u =>
+    if u.contains 0 then "ok" else
+    match firstRealm m trToks u with
+    | none => "ok"
+    | some none => "bad C08:forwarded-though-no-realm-matches"
+    | some (some r) =>
+      let idx := m.cfg.srvs.findIdx? (·.1 = sname)
+      match World.realmServers r (codeOf fwd), idx with
+      | some l, some i => if l.contains i then "ok" else "bad C08:forwarded-to-a-server-that-is-not-the-first-matching-realms"
+      | _, _ => "bad C08:forwarded-though-the-first-matching-realm-has-no-server-for-this-request-type"
+
+/-- C08 on a reply the proxy produced itself for a fresh (not retransmitted) request -/
+def localVerdict (m : Mon) (cc : World.CliConf) (rq out : Bytes) (trToks : List String) : String :=
+  if cc.rwUser.isSome || rwTouches cc.rwIn 1 then "ok" else
+  let eapMayReject := m.cfg.opts.verifyEap && (attrsOf rq).any (·.1 = 79)
+  match firstOf 1 rq with
+  | none =>
+    if codeOf rq = 4 && codeOf out = 5 then "ok"
+    else if codeOf rq = 1 && codeOf out = 3 && !eapMayReject then "bad C08:access-request-without-user-name-answered"
+    else "ok"
+  | some u =>
+    if u.contains 0 || u.isEmpty then "ok" else
+    if codeOf rq = 1 && codeOf out = 3 && !eapMayReject then
+      (match firstRealm m trToks u with
+       | none => "ok"
+       | some none => "bad C08:access-reject-though-no-realm-matches"
+       | some (some r) =>
+         if (World.realmServers r 1).isSome then "bad C08:access-reject-though-the-first-matching-realm-has-servers"
+         else match r.msg with
+           | none => "bad C08:access-reject-without-a-configured-ReplyMessage"
+           | some msg => if firstOf 18 out == some msg then "ok" else "bad C08:access-reject-does-not-carry-the-realms-ReplyMessage")
+    else if codeOf rq = 4 && codeOf out = 5 then
+      (match firstRealm m trToks u with
+       | none => "ok"
+       | some none => "bad C08:accounting-response-though-no-realm-matches"
+       | some (some r) =>
+         if (World.realmServers r 4).isSome then "bad C08:accounting-response-though-the-first-matching-realm-has-accounting-servers"
+         else if !r.accresp then "bad C08:accounting-response-though-AccountingResponse-is-off" else "ok")
+    else "ok"
+
 /-- attribute types a forwarded request may legitimately differ in from the client's packet (C01) -/
 def touchedReq (m : Mon) (cc : World.CliConf) (sc : World.SrvConf) (t : UInt8) : Bool :=
   rwTouches cc.rwIn t || rwTouches sc.rwOut t ||
@@ -182,7 +249,7 @@ def resync (m : Mon) (out : String) : Mon :=
   { m with qlen := digestQlens out, slots := sl,
            fwds := m.fwds.filter fun f => (sl.find? (·.1 = f.srv)).any fun s => s.2.any (·.1 = f.slot) }
 
-def monOp (m : Mon) (op : String) (args : List String) (impl : List String) : Mon × String :=
+def monOp (m : Mon) (op : String) (args : List String) (impl : List String) (trToks : List String := []) : Mon × String :=
   let out := " ".intercalate impl
   if impl.any (·.startsWith "crash:") || impl == ["skipped"] then (m, "bad sanitizer-or-crash") else
   match op, args with
@@ -230,12 +297,13 @@ def monOp (m : Mon) (op : String) (args : List String) (impl : List String) : Mo
                  else if codeOf b != codeOf pkt then "bad C01:code-changed"
                  else if !frameOk m cc sc pkt b then "bad C01:untouched-attributes-not-preserved"
                  else if World.loopPrevents m.cfg.opts cc sc then "bad C13:request-forwarded-back-to-the-peer-it-came-from"
+                 else if routeVerdict m cc sc s b trToks ≠ "ok" then routeVerdict m cc sc s b trToks
                  else if userPwdVerdict cc sc pkt b ≠ "ok" then userPwdVerdict cc sc pkt b
                  else if ttlSkips m.cfg.opts.ttlType [cc.rwIn, sc.rwOut] then "ok"
                  else ttlVerdict m.cfg.opts.ttlType (World.effAddTtl m.cfg.opts sc.addttl) pkt b "request")
             | [] => "ok"
         let m := { m with recv := (k, pkt) :: m.recv,
-                          queue := m.queue ++ List.replicate ((ql.getD k 0) - (m.qlen.getD k 0)) (k, none),
+                          queue := m.queue ++ List.replicate ((ql.getD k 0) - (m.qlen.getD k 0)) (k, QEnt.loc pkt (m.recv.any fun (j, p) => j = k && p == pkt) trToks),
                           fwds := (fwdToks.map fun (s, sl, b) => { srv := s, slot := sl, pkt := b, client := k, rq := pkt }) ++ m.fwds }
         (resync m out, verdict)
     | _, _ => (m, "bad-op")
@@ -289,7 +357,7 @@ def monOp (m : Mon) (op : String) (args : List String) (impl : List String) : Mo
              else "ok")
         | _ => "bad C02:delivered-to-several-clients"
       let m := match grown, fwd with
-        | [j], some f => { m with queue := m.queue ++ [(j, some { client := j, id := idOf f.rq, rep := pkt, srv := name, rq := f.rq, fwd := f.pkt })] }
+        | [j], some f => { m with queue := m.queue ++ [(j, QEnt.del { client := j, id := idOf f.rq, rep := pkt, srv := name, rq := f.rq, fwd := f.pkt })] }
         | _, _ => m
       (resync m out, verdict)
     | _, _ => (m, "bad-op")
@@ -303,7 +371,7 @@ def monOp (m : Mon) (op : String) (args : List String) (impl : List String) : Mo
           | ["out", h] => ofHex h
           | _ => none
         let mine := (m.queue.filter (·.1 = k)).map (·.2)
-        let paired : List (Bytes × Option MDel) := if mine.length = outs.length then outs.zip mine else outs.map (·, none)
+        let paired : List (Bytes × Option QEnt) := if mine.length = outs.length then outs.zip (mine.map some) else outs.map (·, none)
         let verdict := paired.foldl (fun v (b, del) =>
           if v ≠ "ok" then v else
           let cands := m.recv.filter fun (j, rq) => j = k && idOf rq == idOf b
@@ -314,7 +382,8 @@ def monOp (m : Mon) (op : String) (args : List String) (impl : List String) : Mo
           else
             match del with
             | none => "ok"
-            | some d =>
+            | some (.loc rq replay tr) => if replay then "ok" else localVerdict m cc rq b tr
+            | some (.del d) =>
               (match srvConfOf m d.srv with
                | none => "ok"
                | some sc =>
